@@ -52,6 +52,7 @@ SkelRec == [t |-> "skel", skel |-> sk,
             classes |-> [i \in 1..(N + 1) |-> ClassV(i - 1)],                \* index g+1
             zones |-> [i \in 1..(N + 1) |-> ZoneV(i - 1)],                  \* index g+1
             cats |-> [k \in Kinds |-> KindCat(k)],
+            commentkinds |-> {k \in Kinds : HasComment(k)},
             items |-> Items(tk, {}),
             kinds |-> SkelKinds[sk], deps |-> SkelDeps[sk],
             trivia |-> TriviaText, aux |-> AuxFiles]
